@@ -71,11 +71,6 @@ func TestGovcBoundedC08Deviations(t *testing.T) {
 				if x.parent == nil || x.implicit || x.kind == "case" || x.kind == "choice" || x.kind == "input" || x.kind == "output" || x.kind == "rpc" || x.kind == "action" {
 					return false
 				}
-				for p := x.parent; p != nil; p = p.parent {
-					if p.implicit {
-						return false // paths through implied cases are outside the claim
-					}
-				}
 				return x.name != "k"
 			}, &cands)
 		}
@@ -121,6 +116,8 @@ func TestGovcBoundedC08Deviations(t *testing.T) {
 					dv.add(gs("deviate", "delete", gs("default", x.def[0])), gs("deviate", "add", gs("default", "added")))
 				} else if x.kind == "leaf" && len(x.def) == 0 {
 					dv.add(gs("deviate", "add", gs("default", "first")), gs("deviate", "replace", gs("default", "second")), gs("deviate", "delete", gs("default", "second")), gs("deviate", "add", gs("default", "third")))
+				} else if x.kind == "leaf-list" && rng.Intn(2) == 0 {
+					dv.add(gs("deviate", "add", gs("default", g.fresh("added"))))
 				} else {
 					dv.add(gs("deviate", "replace", gs("default", "r1")))
 					if x.kind == "leaf-list" {
@@ -128,10 +125,23 @@ func TestGovcBoundedC08Deviations(t *testing.T) {
 					}
 				}
 			case k == 2 && listy:
-				dv.add(gs("deviate", "replace", gs("min-elements", "2"), gs("max-elements", "4")))
-				if rng.Intn(2) == 0 {
-					dv.add(gs("deviate", "delete", gs("min-elements", "2")))
+				switch rng.Intn(3) {
+				case 0:
+					dv.add(gs("deviate", "replace", gs("min-elements", "2"), gs("max-elements", "4")))
+					if rng.Intn(2) == 0 {
+						dv.add(gs("deviate", "delete", gs("min-elements", "2")))
+					}
+				case 1:
+					// the values that equal "not given": they are given all the same
+					dv.add(gs("deviate", "replace", gs("min-elements", "0"), gs("max-elements", "unbounded")))
+				default:
+					dv.add(gs("deviate", "replace", gs("min-elements", "0"), gs("max-elements", "6")))
+					if rng.Intn(2) == 0 {
+						dv.add(gs("deviate", "replace", gs("max-elements", "unbounded")))
+					}
 				}
+			case k == 2 && x.kind == "leaf-list" && false:
+				// (kept for symmetry)
 			case k == 3:
 				dv.add(gs("deviate", "add", gs("config", rngBool(rng))))
 			case k == 4 && leafy:
@@ -148,7 +158,7 @@ func TestGovcBoundedC08Deviations(t *testing.T) {
 			}
 			if wantBad {
 				wantBad = false
-				switch b := rng.Intn(5); {
+				switch b := rng.Intn(6); {
 				case b == 0:
 					dv.arg += "/dv:nope"
 				case b == 1 && x.kind == "leaf" && len(x.def) == 1:
@@ -156,7 +166,12 @@ func TestGovcBoundedC08Deviations(t *testing.T) {
 				case b == 2 && x.kind == "leaf":
 					dv.kids = []*gsStmt{gs("deviate", "delete", gs("default", "never-there"))}
 				case b == 3 && !listy:
-					dv.kids = []*gsStmt{gs("deviate", "add", gs("max-elements", "3"))}
+					dv.kids = []*gsStmt{gs("deviate", "add", gs("max-elements", []string{"3", "unbounded"}[rng.Intn(2)]))}
+					if rng.Intn(2) == 0 {
+						dv.kids = []*gsStmt{gs("deviate", "replace", gs("min-elements", "0"))}
+					}
+				case b == 5 && leafy:
+					dv.kids = []*gsStmt{gs("deviate", "replace", gs("type", "no-such-type"))}
 				case b == 4 && listy:
 					dv.kids = []*gsStmt{gs("deviate", "delete", gs("max-elements", "77"))}
 				default:
@@ -214,6 +229,28 @@ func TestGovcBoundedC08Deviations(t *testing.T) {
 			}
 			if len(fails) > 0 {
 				break
+			}
+		}
+	}
+	// fixed case: the copies of a grouping's leaf-list share the array of their defaults
+	{
+		evals++
+		ms := NewModules()
+		srcs := []string{
+			`module m { namespace "urn:m"; prefix m; grouping g { leaf-list ll { type string; default a; default b; default c; } } container c1 { uses g; } container c2 { uses g; } container c3 { uses g; } }`,
+			`module d { namespace "urn:d"; prefix d; import m { prefix m; } deviation "/m:c1/m:ll" { deviate add { default x; } } deviation "/m:c2/m:ll" { deviate add { default y; } } }`}
+		for i, src := range srcs {
+			if err := ms.Parse(src, fmt.Sprintf("fixed%d.yang", i)); err != nil {
+				fmt.Printf("GOVC-FAIL name=c08-deviations fixed case does not parse: %v\n", err)
+			}
+		}
+		if errs := ms.Process(); len(errs) > 0 {
+			fmt.Printf("GOVC-FAIL name=c08-deviations fixed case: %v\n", errs)
+		} else {
+			e := ToEntry(ms.Modules["m"])
+			got := fmt.Sprint(e.Dir["c1"].Dir["ll"].Default, e.Dir["c2"].Dir["ll"].Default, e.Dir["c3"].Dir["ll"].Default)
+			if got != "[a b c x] [a b c y] [a b c]" {
+				fmt.Printf("GOVC-FAIL name=c08-deviations three uses of a grouping's leaf-list, default x added to the first and y to the second: %s\n", got)
 			}
 		}
 	}
